@@ -301,3 +301,65 @@ Proof.
         congruence. }
       rewrite Hq in Hc. destruct Hc.
 Qed.
+
+(* ---------- the third constraint of the harness: a call made from a handler comes after its parent ---------- *)
+Lemma index_in_seq x : forall m a k, (a <= x < a + m)%nat ->
+  index_in (N.of_nat x) (map N.of_nat (seq a m)) k = Some (k + N.of_nat (x - a)).
+Proof.
+  induction m as [|m IH]; intros a k H; [lia|]. cbn [seq map index_in].
+  destruct (N.eqb_spec (N.of_nat a) (N.of_nat x)) as [E|E].
+  - assert (a = x) by lia. subst a. rewrite Nat.sub_diag. f_equal. lia.
+  - rewrite IH by lia. f_equal. lia.
+Qed.
+
+Lemma before_map {A B} (f : A -> B) x y l : before x y l -> before (f x) (f y) (map f l).
+Proof. intros (l1 & l2 & l3 & ->). exists (map f l1), (map f l2), (map f l3). rewrite !map_app. cbn [map]. rewrite map_app. reflexivity. Qed.
+
+Lemma before_nth_lt {A} (l : list A) a b i j : NoDup l -> before a b l ->
+  nth_error l i = Some a -> nth_error l j = Some b -> (i < j)%nat.
+Proof.
+  intros Hn (l1 & l2 & l3 & E) Hi Hj. subst l.
+  assert (Hi' : nth_error (l1 ++ a :: l2 ++ b :: l3) (length l1) = Some a).
+  { rewrite nth_error_app2 by lia. rewrite Nat.sub_diag. reflexivity. }
+  assert (Hj' : nth_error (l1 ++ a :: l2 ++ b :: l3) (length l1 + S (length l2)) = Some b).
+  { rewrite nth_error_app2 by lia. replace (length l1 + S (length l2) - length l1)%nat with (S (length l2)) by lia.
+    cbn [nth_error]. rewrite nth_error_app2 by lia. rewrite Nat.sub_diag. reflexivity. }
+  rewrite NoDup_nth_error in Hn.
+  assert (Ei : i = length l1).
+  { apply Hn; [apply nth_error_Some; rewrite Hi; discriminate | rewrite Hi, Hi'; reflexivity]. }
+  assert (Ej : j = (length l1 + S (length l2))%nat).
+  { apply Hn; [apply nth_error_Some; rewrite Hj; discriminate | rewrite Hj, Hj'; reflexivity]. }
+  lia.
+Qed.
+
+(* Whatever parent an observer attributes to a call - 0 for none, 1 + the position (in critical-section order)
+   of a call of the same goroutine that was still open when this one was invoked - the check [parents_ok]
+   that the harness applies on top of [lin_check] accepts the critical-section order. *)
+Theorem parents_ok_complete h0 g parents : reachable (init_cfg h0) g ->
+  (forall i q, nth_error parents i = Some q -> q <> 0 ->
+     exists t c c', nth_error (map l_cid (lin g)) (N.to_nat (q - 1)) = Some c /\
+                    nth_error (map l_cid (lin g)) i = Some c' /\ nested (hist g) t c c') ->
+  parents_ok parents (iotaN (length (lin g))) = true.
+Proof.
+  intros Rch Hp. pose proof (inv_reachable h0 g Rch) as I.
+  unfold parents_ok. apply forallb_forall. intros i' Hi'.
+  unfold iotaN in Hi'. apply in_map_iff in Hi' as (i & <- & Hi). apply in_seq in Hi. rewrite Nat2N.id.
+  destruct (nth_error parents i) as [q|] eqn:Eq; [|reflexivity].
+  destruct (N.eq_dec q 0) as [->|Hq]; [reflexivity|].
+  destruct (Hp i q Eq Hq) as (t & c & c' & Nc & Nc' & Nst).
+  destruct (conc_nested_order h0 g t c c' Rch Nst) as [_ Hord].
+  assert (Hx' : exists x', nth_error (lin g) i = Some x' /\ l_cid x' = c').
+  { rewrite nth_error_map in Nc'. destruct (nth_error (lin g) i) as [x'|]; [|discriminate].
+    exists x'. split; [reflexivity|]. cbn [option_map] in Nc'. congruence. }
+  destruct Hx' as (x' & Nx' & Ex').
+  destruct (Hord x' (nth_error_In _ _ Nx') Ex') as (x & Ex & Hb).
+  assert (Hlt : (N.to_nat (q - 1) < i)%nat).
+  { apply (before_nth_lt (map l_cid (lin g)) c c'); [apply (I_lin_nodup _ _ I) | | exact Nc | exact Nc'].
+    rewrite <- Ex, <- Ex'. apply before_map. exact Hb. }
+  destruct q as [|p]; [contradiction|].
+  unfold iotaN.
+  replace (N.pos p - 1) with (N.of_nat (N.to_nat (N.pos p - 1))) by lia.
+  rewrite (index_in_seq (N.to_nat (N.pos p - 1)) (length (lin g)) 0 0) by lia.
+  rewrite (index_in_seq i (length (lin g)) 0 0) by lia.
+  rewrite !Nat.sub_0_r, !N.add_0_l. apply N.ltb_lt. lia.
+Qed.
